@@ -114,4 +114,27 @@ def parse_harness(line):
 
 
 def run_batch(binary, lines, env=None, timeout=300):
-    return [parse_harness(l) for l in vlib.harness(binary, 'scripted', lines, timeout=timeout, env=env)]
+    """Runs the request lines through the scripted harness, in chunks; a chunk that does not come back in time
+    is retried once and then line by line, so that a stuck request is isolated (and named) instead of stalling
+    the whole batch."""
+    import subprocess
+    out = []
+    step = 400
+    for i in range(0, len(lines), step):
+        chunk = lines[i:i + step]
+        res = None
+        for attempt in range(2):
+            try:
+                res = vlib.harness(binary, 'scripted', chunk, timeout=min(timeout, 180), env=env)
+                break
+            except subprocess.TimeoutExpired:
+                res = None
+        if res is None:
+            res = []
+            for l in chunk:
+                try:
+                    res += vlib.harness(binary, 'scripted', [l], timeout=60, env=env)
+                except subprocess.TimeoutExpired:
+                    raise vlib.BrokenTie('the scripted harness did not answer this request within 60 s (twice in its chunk): %s' % l[:1500])
+        out += res
+    return [parse_harness(l) for l in out]
